@@ -1080,6 +1080,23 @@ func runC09(ctx *Ctx) *Report {
 				cases = append(cases, c5)
 			}
 		}
+		// dry run together with an encoding option, before and after it in the option list, through every name of
+		// the entry point (and, below, in both modes): still a dry run – nothing created, the report of dry run alone
+		{
+			combo := i % 12
+			c6 := c2
+			c6.Stray, c6.StrayLast, c6.Alias = []string{"json", "yaml", "toml"}[combo%3], (combo/3)%2 == 0, combo/6 == 1
+			if i%5 == 0 {
+				c6.Target, c6.Pre = "missing/t", nil
+			}
+			cases = append(cases, c6)
+			if len(f) == 1 {
+				c7 := c6
+				c7.FromRoot, c7.Tree = true, f[0].Enc()
+				c7.Stray = []string{"json", "yaml", "toml"}[(combo+1)%3]
+				cases = append(cases, c7)
+			}
+		}
 		if distinctRoots(f) {
 			r := newCase("dry-predicts-real")
 			r.Doc, r.DocText, r.Exts, r.Target, r.Tree = hx(doc), docText(doc), exts, "t", encForest(f)
@@ -1125,10 +1142,13 @@ func runC09(ctx *Ctx) *Report {
 		}
 		rep.Record(c, caseKey(c), nonTrivialEnc(c.Tree) || len(c.Doc) > 30, diffs)
 		rep.Count("kind:" + c.Kind + "/" + resultClass(realv))
+		if c.Kind == "mkdir" && c.Dry && c.Stray != "" {
+			rep.Count("dry-run mkdir with an encoding option " + ifs(c.StrayLast, "after", "before") + " WithDryRun: " + ifs(c.FromRoot, ifs(c.Alias, "MkdirProgrammably", "MkdirFromRoot"), ifs(c.Alias, "Mkdir", "MkdirFromMarkdown")) + "/" + c.Stray)
+		}
 	})
 	var mdry []Case
 	for i, c := range cases {
-		if c.Kind == "mkdir" && (i%2 == 0 || ctx.Thorough) {
+		if c.Kind == "mkdir" && (i%2 == 0 || ctx.Thorough || (c.StrayLast && i%3 != 0)) {
 			mc := c
 			mc.Kind, mc.Massive = "massive-mkdir", true
 			mdry = append(mdry, mc)
@@ -1137,7 +1157,7 @@ func runC09(ctx *Ctx) *Report {
 	parallel(mdry, ctx.Workers/2+1, func(m *Model, c Case) {
 		diffs := runMassiveMkdir(c)
 		rep.Record(c, caseKey(c), len(c.Doc) > 24 || c.FromRoot, diffs)
-		rep.Count("massive-mkdir-dry" + ifs(c.FromRoot, "/root", ""))
+		rep.Count("massive-mkdir-dry" + ifs(c.FromRoot, "/root", "") + ifs(c.Alias, "/alias", "") + ifs(c.Stray != "", "/encoding option "+ifs(c.StrayLast, "after", "before")+" WithDryRun", ""))
 	})
 	parallel(rels, ctx.Workers, func(m *Model, c Case) {
 		diffs := runDryPredictsReal(c)
